@@ -24,7 +24,7 @@ ASSUMPTIONS = ["handlers of focus events only record them", "the root window is 
 TRUSTED = ["model coq/WinDefs.v (take_focus, show/hide/close side effects, do_restore), spec coq/WinSpec.v (cursor_spec, focus_spec)"]
 
 PROFILE = {"new": 10, "close": 4, "show": 8, "hide": 8, "restack": 6, "geom": 8, "expose": 2, "flush": 14,
-           "scroll": 2, "focus": 16, "cursor": 14, "notify": 6, "dead": 1}
+           "scroll": 2, "focus": 16, "cursor": 14, "notify": 6, "dead": 1, "tresize": 3}
 
 BASES = [
     ["N 1 0 0 0 3 4 0", "N 2 1 1 1 2 2 0", "N 3 0 1 2 2 3 2"],
@@ -70,6 +70,25 @@ def gen(tier, seed, info):
         yield case
     info["random_cases"] = nrand
     info["random_op_kind_counts"] = kinds
+    # damage that a terminal shrink puts outside the root before the flush: the flush draws nothing, yet the
+    # cursor (switched off for the flush) must be re-established
+    nshr = 600 if tier == "quick" else 20000
+    for _ in range(nshr):
+        nl, nc = rnd.randint(4, 7), rnd.randint(5, 9)
+        wl, wc = rnd.randint(1, 2), rnd.randint(2, 3)
+        pre = ["N 1 0 0 0 %d %d 0" % (wl + 1, wc + 1), "CP 1 %d %d" % (rnd.randint(0, wl), rnd.randint(0, wc)), "TF 1"]
+        if rnd.random() < 0.5:
+            pre.append("CS 1 %d" % rnd.randint(1, 3))
+        pre.append("F")
+        cut = rnd.randint(wl + 1, nl - 1)
+        body = ["E 0 %d 0 %d %d" % (cut, nl - cut, nc)]
+        if rnd.random() < 0.3:
+            body.append("E 0 %d %d 1 1" % (rnd.randint(cut, nl - 1), rnd.randint(0, nc - 1)))
+        body.append("TR %d %d" % (cut, nc))
+        if rnd.random() < 0.3:
+            body.insert(0, "F")
+        yield "W G %d %d A " % (nl, nc) + " ".join(pre + body + ["F", "F"])
+    info["shrink_cases"] = nshr
 
 
 def classify(case, obs):
